@@ -250,6 +250,61 @@ func init() {
 			t.stop()
 		}
 
+		// 4a. a handler that has written nothing yet and waits for its context, on every stream kind; the caller
+		// half-closes a little after its request and then cancels: the handler's context must end.  The handler
+		// either reads its requests to the end first or stops after the first one (KNOWN FINDING F24: over HTTP
+		// the second kind of handler is not told, unless the library itself read ahead as it does for SS)
+		readAll := false
+		for _, t := range bothTransports(&hx.Svc{Stream: func(kind string, ss grpc.ServerStream) error {
+			ss.RecvMsg(&hx.Msg{})
+			for readAll && ss.RecvMsg(&hx.Msg{}) == nil {
+			}
+			select {
+			case <-ss.Context().Done():
+				atomic.AddInt32(&handlerSawDone, 1)
+				return ss.Context().Err()
+			case <-time.After(3 * time.Second):
+			}
+			return nil
+		}}) {
+			for _, all := range []bool{true, false} {
+				for _, kind := range []string{"SS", "BD", "CS"} {
+					readAll = all
+					before := atomic.LoadInt32(&handlerSawDone)
+					ctx, cancel := context.WithCancel(context.Background())
+					cs, e := t.ch.NewStream(ctx, hx.StreamDescOf(kind), "/verif.Svc/"+kind)
+					var e1 error
+					if e == nil {
+						cs.SendMsg(&hx.Msg{})
+						time.Sleep(80 * time.Millisecond)
+						cs.CloseSend()
+						time.Sleep(40 * time.Millisecond)
+						cancel()
+						e1 = cs.RecvMsg(&hx.Msg{})
+						runtime.KeepAlive(cs)
+					}
+					cancel()
+					deadline := time.Now().Add(1500 * time.Millisecond)
+					for atomic.LoadInt32(&handlerSawDone) == before && time.Now().Before(deadline) {
+						time.Sleep(2 * time.Millisecond)
+					}
+					ended := atomic.LoadInt32(&handlerSawDone) > before
+					ok := e == nil && isCtxStatus(e1, codes.Canceled) && ended
+					id++
+					d := map[string]interface{}{"transport": t.name, "kind": kind, "handler_reads_requests_to_the_end": all,
+						"scenario": "handler has sent nothing and waits on its context; request, pause, CloseSend, pause, cancel", "client_receive": fmt.Sprint(e1), "handler_context_ended_within_1.5s": ended}
+					name := "cancel_reaches_idle_handler_" + t.name
+					if t.name == "httpgrpc" && !all && kind != "SS" {
+						name = "F24"
+					} else if !ok {
+						o.Violate("the handler's context did not end when the caller cancelled (or the caller did not get Canceled)", d, nil, nil)
+					}
+					checked(o, name, id, ok, d)
+				}
+			}
+			t.stop()
+		}
+
 		// 4b. short deadlines, many times: over HTTP the server's own timer (from GRPC-Timeout) and the caller's
 		// deadline end within a millisecond of each other, in either order; whichever the client meets first,
 		// the pending and the later receive return DeadlineExceeded as a status
@@ -349,6 +404,7 @@ func init() {
 			checked(o, "http_stalled_reply_then_cancel", id, ok, d)
 		}
 		raw.Close()
+		o.Check, o.Oracle, o.Finding = "check_c04", "oracle_c04", "finding_c04"
 		o.Shard = 60
 	}
 }
